@@ -35,9 +35,10 @@ def pct(rng, s, p=0.3):
 def url(rng):
     u = rng.choice(SCHEMES) + b"://"
     if rng.random() < 0.25:
-        u += pct(rng, rng.choice([b"user", b"user", b"", b"a.b", b"u;x=1"]), 0.2)
+        user = rng.choice([b"user", b"user", b"", b"a.b", b"u;x=1", b"admin", b"administrator"])
+        u += pct(rng, user, 0.2)
         if rng.random() < 0.6:
-            u += b":" + pct(rng, rng.choice([b"p4ss", b"pa:ss", b":x", b"a:b:c", b"", b"p:", b"p@ss"]), 0.2)      # RFC 3986: the user name ends at the FIRST colon
+            u += b":" + pct(rng, rng.choice([b"p4ss", b"pa:ss", b":x", b"a:b:c", b"", b"p:", b"p@ss", user, user[1:4], b"min"]), 0.2)      # RFC 3986: the user name ends at the FIRST colon
         u += b"@"
     r = rng.random()
     if r < 0.5:
@@ -47,7 +48,7 @@ def url(rng):
     elif r < 0.8:
         u += rng.choice([b"0x7f.0.0.1", b"2130706433", b"192.168.1", b"010.0.0.1"])
     elif r < 0.9:
-        u += rng.choice([b"[2001:db8::7]", b"[::1]", b"[fe80::1:2:3]", b"[2001:DB8:0:0:0:0:0:1]"])
+        u += rng.choice([b"[2001:db8::7]", b"[::1]", b"[fe80::1:2:3]", b"[2001:DB8:0:0:0:0:0:1]", b"[2001:DB8::7]", b"[FE80::1]", b"[::FFFF:1.2.3.4]", b"[2001:db8::0:7]"])
     else:
         u += rng.choice([b"localhost", b"host", b"exa_mple.com"])
     if rng.random() < 0.3:
@@ -58,7 +59,7 @@ def url(rng):
     if rng.random() < 0.4:
         u += b"?" + rng.choice([b"", b"q=1", b"a=%3d&b=%41", b"x=%zz", b"k=v%2F"])
     if rng.random() < 0.3:
-        u += b"#" + rng.choice([b"", b"frag", b"f%72ag", b"a/b"])
+        u += b"#" + rng.choice([b"", b"frag", b"f%72ag", b"a/b", b"/login?next=home", b"?", b"a#b"])
     return u
 
 
@@ -85,7 +86,18 @@ def shell(rng):
     ps = [b"", b"powershell -enc " + base64.b64encode("Write-Host hi".encode("utf-16-le")),
           b"pwsh /e " + base64.b64encode("calc".encode("utf-16-le")), b'powershell -NoP -EncodedCommand "' + base64.b64encode("ls".encode("utf-16-le")) + b'"',
           b"p^o^w^e^r^s^h^e^l^l -e^c aQBkAA==", b"'powershell -c Get-Item'", b'"powershell Get-Item', b"('powershell x')", b"powershell/e^\r\nAAAA"]
+    if rng.random() < 0.12:
+        inner = "Write-Host http://stage3.example.com/x"
+        for _ in range(rng.randint(1, 3)):
+            inner = "powershell -enc " + base64.b64encode(inner.encode("utf-16-le")).decode()
+        ps = [inner.encode()]
     return rng.choice(cmds) + body + (b" & " + rng.choice(ps) if rng.random() < 0.6 else b"")
+
+
+def truncated_url(rng):
+    """a URL candidate cut short by its surrounding bracket / quote context before the real host"""
+    return rng.choice([b"see x (http://:80)@host.example.com/a for details", b"open('http://user@'@evil.example.com/x')", b"(http://user)@host.example.com/", b"'http://u:p'@h.example.com/x'",
+                       b"x (ftp://)@files.example.org/a) y", b"(https://user:pw@)host.example.com/", b"'http://'example.com/'", b"(http://a.example.com/x) (http://@)b.example.com"])
 
 
 FRAGMENTS = [
@@ -115,6 +127,11 @@ def plain_nested(rng):
     inner = rng.choice([b"http://example.com/some/path/file.txt", b"https://files.example.org/dl/tool.exe?x=1#top", b"ftp://user:pw@10.20.30.40:21/pub/a.dll", b"\\\\files.example.org\\share\\tool.exe",
                         b"C:\\Users\\Public\\stage2\\loader.dll", b"/usr/local/lib/libfoo.so", b"admin@corp-mail.example.org", b"10.20.30.40", b"kernel32.dll"])
     ctxs = [b"cmd /c curl %s -o x", b"cmd.exe /k start %s /q", b'x = CreateObject("%s")', b"cmd /c echo %s & ping %s", b"http://example.com/redirect?to=%s", b"cmd /c (copy %s d) & echo z"]
+    if rng.random() < 0.2:
+        # two undecoded hits that STRADDLE (the second starts inside the first and ends after it)
+        body = rng.choice([b"contact bob@www.example.com\\dirname\\file.txt today", b"see /aaa/bbb/ccc.evil.com-foo.net now", b"mail a@files.example.org/pub/tool.exe x", b"get www.example.com\\share\\a.dll",
+                           b"at 10.20.30.40\\c$\\x.exe and", b"/usr/lib/libfoo.so.example.com/x"])
+        return rng.choice([b"run: ", b"zz ~ ", b"\n\n", b"note; "]) + body + rng.choice([b"", b" ~ zz", b"\n"])
     c = rng.choice(ctxs)
     body = c.replace(b"%s", inner)
     return rng.choice([b"run: ", b"zz ~ ", b"\n\n", b"note; "]) + body + rng.choice([b"", b" ~ zz", b"\n"])
@@ -165,7 +182,7 @@ def gen_inputs(rng, n, kinds=("indicator", "shell", "stack", "splice", "regex"))
                 out.append(w)
             continue
         if k == "indicator":
-            f = rng.choice([url, url, domain, lambda r: ipv4(r, r.random() < 0.7), email, winpath, posixpath])
+            f = rng.choice([url, url, url, domain, lambda r: ipv4(r, r.random() < 0.7), email, winpath, posixpath, truncated_url])
             parts = [f(rng) for _ in range(rng.randint(1, 3))]
             sep = rng.choice([b" ", b"\n", b"' '", b" ( ", b"; "])
             out.append(embed(rng, sep.join(parts)))
